@@ -859,6 +859,13 @@ def with_helpers(p, f, depth=2, same_module_only=True):
                     r = resolve_callee(p, n, g.module)
                     if r and r[0] == "func":
                         tgt = r[1]
+                    elif r and r[0] == "class" and (not same_module_only or r[1].module is f.module) and len(r[1].methods) <= 8:
+                        # a small helper class built here (`_SympySystem(equations).solve()`): its methods run on behalf of g
+                        for mth in r[1].methods.values():
+                            if mth not in seen:
+                                seen.add(mth)
+                                out.append(mth)
+                                nxt.append(mth)
                 if tgt is not None and tgt not in seen and (not same_module_only or tgt.module is f.module):
                     seen.add(tgt)
                     out.append(tgt)
